@@ -515,10 +515,44 @@ Proof.
   destruct (k + n <? n) eqn:E0; [apply N.ltb_lt in E0; lia|]. f_equal. lia.
 Qed.
 
+Fixpoint plen (l : eplist) : N := match l with PNil => 0 | PCons _ _ t => 1 + plen t end.
+Lemma plen_len l : pairs_len l = Z.of_N (plen l).
+Proof. induction l as [|k e t IH]; cbn [pairs_len plen]; lia. Qed.
+
+Definition pairs_sl2 (l : eplist) : Prop :=
+  forall st st', compile_pairs true l st = COk st' ->
+    csym st' = csym st /\
+    exists ops newc,
+      ccode st' = ccode st ++ encode ops /\ cconsts st' = cconsts st ++ newc /\
+      (forall nc gc k,
+        N.of_nat (List.length (cconsts st')) <= nc ->
+        gbw (csym st) gc ->
+        runs nc gc ops k = Some (k + 2 * plen l)) /\
+      (forall lc, lbw (csym st) lc -> Forall (lopk lc) ops).
+
+Lemma sop_ok_map nc gc n k : n < 65536 -> sop_ok nc gc (Map, n) (k + 2 * n) = Some (k + 1).
+Proof.
+  intro H. unfold sop_ok. cbn [is_sl negb has_operand andb simple_effect].
+  destruct (n <? 65536) eqn:E; [|apply N.ltb_ge in E; lia]. cbn [negb].
+  destruct (k + 2 * n <? 2 * n) eqn:E0; [apply N.ltb_lt in E0; lia|]. f_equal. lia.
+Qed.
+
+Definition oexpr_sl2 (o : oexpr) : Prop :=
+  forall st st', compile_oexpr true o st = COk st' ->
+    csym st' = csym st /\
+    exists ops newc,
+      ccode st' = ccode st ++ encode ops /\ cconsts st' = cconsts st ++ newc /\
+      (forall nc gc k,
+        N.of_nat (List.length (cconsts st')) <= nc ->
+        gbw (csym st) gc ->
+        runs nc gc ops k = Some (k + 1)) /\
+      (forall lc, lbw (csym st) lc -> Forall (lopk lc) ops).
+
 Theorem efrag_sl2_all :
   (forall e, efrag e = true -> expr_sl2 e) /\
   (forall l, efrag_list l = true -> elist_sl2 l) /\
-  (forall p : eplist, True) /\ (forall o : oexpr, True).
+  (forall l, efrag_pairs l = true -> pairs_sl2 l) /\
+  (forall o, efrag_o o = true -> oexpr_sl2 o).
 Proof.
   apply expr_mutind; try (intros; exact I).
   - (* ENum *) intros f HF; unfold expr_sl2; intros st st' HC.
@@ -567,7 +601,17 @@ Proof.
     + intros nc gc k H1 HG. eapply runs_app; [apply (D nc gc k); auto|]. cbn [runs].
       rewrite sop_ok_array by lia. reflexivity.
     + intros lc HL. apply Forall_app. split; [apply L; exact HL|]. constructor; [apply lopk_nonlocal; reflexivity|constructor].
-  - (* EMap *) intros kvs _ np HF. discriminate HF.
+  - (* EMap *) intros kvs IHl np HF; unfold expr_sl2; intros st st' HC.
+    cbn [efrag] in HF. apply andb_true_iff in HF. destruct HF as [HNP HF]. apply Z.eqb_eq in HNP. subst np.
+    simpl in HC. bind_inv HC.
+    destruct (IHl HF _ _ H) as (A & ops & newc & B & C & D & L).
+    apply emit_enc1 in HC; [|reflexivity]. destruct HC as [HRng ->]. cbn [csym ccode cconsts].
+    rewrite plen_len, N2Z.id in *.
+    split; [exact A|]. exists (ops ++ [(Map, plen kvs)]), newc.
+    split; [rewrite encode_app, encode_one, B, app_assoc; reflexivity|]. split; [exact C|]. split.
+    + intros nc gc k H1 HG. eapply runs_app; [apply (D nc gc k); auto|]. cbn [runs].
+      rewrite sop_ok_map by lia. reflexivity.
+    + intros lc HL. apply Forall_app. split; [apply L; exact HL|]. constructor; [apply lopk_nonlocal; reflexivity|constructor].
   - (* EUn *) intros op e IHe HF; unfold expr_sl2; intros st st' HC.
    
     assert (HF1 : efrag e = true) by (destruct op; simpl in HF; congruence).
@@ -620,7 +664,26 @@ Proof.
       rewrite (sop_ok_noarg nc gc o 2 (k + 1 + 1) HO HS HE) by lia. f_equal. lia.
     + intros lc HL. apply Forall_app. split; [apply L1; exact HL|]. apply Forall_app. split; [apply L2; rewrite A1; exact HL|].
       constructor; [apply lopk_nonlocal, noarg_nonlocal; exact HO|constructor].
-  - (* ESlice *) intros l _ a _ b _ HF. discriminate HF.
+  - (* ESlice *) intros l IHl a IHa b IHb HF; unfold expr_sl2; intros st st' HC.
+    cbn [efrag] in HF. apply andb_true_iff in HF. destruct HF as [HF HF3]. apply andb_true_iff in HF. destruct HF as [HF1 HF2].
+    cbn [compile_expr] in HC.
+    apply bind_ok in HC; destruct HC as (c3 & HC3 & HC). apply bind_ok in HC3; destruct HC3 as (c2 & HC2 & HCb).
+    apply bind_ok in HC2; destruct HC2 as (c1 & HCl & HCa).
+    destruct (IHl HF1 _ _ HCl) as (A1 & ops1 & newc1 & B1 & C1 & D1 & L1).
+    destruct (IHa HF2 _ _ HCa) as (A2 & ops2 & newc2 & B2 & C2 & D2 & L2).
+    destruct (IHb HF3 _ _ HCb) as (A3 & ops3 & newc3 & B3 & C3 & D3 & L3).
+    pose proof (emit_enc0 Slice _ _ eq_refl HC) as ->. cbn [csym ccode cconsts].
+    split; [congruence|]. exists (ops1 ++ ops2 ++ ops3 ++ [(Slice, 0)]), (newc1 ++ newc2 ++ newc3).
+    split; [rewrite !encode_app, encode_one, B3, B2, B1, <- !app_assoc; reflexivity|].
+    split; [rewrite C3, C2, C1, <- !app_assoc; reflexivity|]. split.
+    + intros nc gc k H1 HG. rewrite C3, C2, !app_length in H1.
+      eapply runs_app; [apply (D1 nc gc k); auto; lia|].
+      eapply runs_app; [apply (D2 nc gc (k + 1)); [rewrite C2, app_length; lia|rewrite A1; exact HG]|].
+      eapply runs_app; [apply (D3 nc gc (k + 1 + 1)); [rewrite C3, C2, !app_length; lia|rewrite A2, A1; exact HG]|]. cbn [runs].
+      rewrite (sop_ok_noarg nc gc Slice 3 (k + 1 + 1 + 1) eq_refl eq_refl eq_refl) by lia. f_equal. lia.
+    + intros lc HL. apply Forall_app. split; [apply L1; exact HL|]. apply Forall_app. split; [apply L2; rewrite A1; exact HL|].
+      apply Forall_app. split; [apply L3; rewrite A2, A1; exact HL|].
+      constructor; [apply lopk_nonlocal; reflexivity|constructor].
   - (* EGroup *) intros e IHe HF; unfold expr_sl2; intros st st' HC.
     simpl in HF, HC. apply (IHe HF _ _ HC).
   - (* EUnsupported *) intros w HF. discriminate HF.
@@ -639,6 +702,31 @@ Proof.
       cbn [elen]. replace (k + (1 + elen t)) with (k + 1 + elen t) by lia.
       apply (D2 nc gc (k + 1)); auto. rewrite A1. exact HG.
     + intros lc HL. apply Forall_app. split; [apply L1; exact HL|apply L2; rewrite A1; exact HL].
+  - (* PNil *) intros _ st st' HC. simpl in HC. inversion HC; subst st'.
+    split; [reflexivity|]. exists [], []. split; [simpl; rewrite app_nil_r; reflexivity|]. split; [rewrite app_nil_r; reflexivity|].
+    split; [intros nc gc k _ _; cbn [runs plen]; f_equal; lia|intros; constructor].
+  - (* PCons *) intros k0 e IHe t IHt HF st st' HC.
+    cbn [efrag_pairs] in HF. apply andb_true_iff in HF. destruct HF as [HF1 HF2]. cbn [compile_pairs] in HC. bind_inv HC. bind_inv H.
+    destruct (const_sl _ _ _ H0) as (R0 & A0 & B0 & C0).
+    destruct (IHe HF1 _ _ H) as (A1 & ops1 & newc1 & B1 & C1 & D1 & L1).
+    destruct (IHt HF2 _ _ HC) as (A2 & ops2 & newc2 & B2 & C2 & D2 & L2).
+    split; [congruence|]. exists ([(Constant, N.of_nat (List.length (cconsts st)))] ++ ops1 ++ ops2), ([KStr k0] ++ newc1 ++ newc2).
+    split; [rewrite !encode_app, B2, B1, B0, <- !app_assoc; reflexivity|].
+    split; [rewrite C2, C1, C0, <- !app_assoc; reflexivity|]. split.
+    + intros nc gc k H1 HG. rewrite C2, C1, C0, !app_length in H1. cbn [List.length] in H1.
+      eapply runs_app; [cbn [runs]; rewrite sop_ok_const by lia; reflexivity|].
+      eapply runs_app; [apply (D1 nc gc (k + 1)); [rewrite C1, C0, !app_length; cbn [List.length]; lia|rewrite A0; exact HG]|].
+      cbn [plen]. replace (k + 2 * (1 + plen t)) with (k + 1 + 1 + 2 * plen t) by lia.
+      apply (D2 nc gc (k + 1 + 1)); [rewrite C2, C1, C0, !app_length; cbn [List.length]; lia|rewrite A1, A0; exact HG].
+    + intros lc HL. apply Forall_app. split; [constructor; [apply lopk_nonlocal; reflexivity|constructor]|].
+      apply Forall_app. split; [apply L1; rewrite A0; exact HL|apply L2; rewrite A1, A0; exact HL].
+  - (* ONoneE *) intros _ st st' HC. cbn [compile_oexpr] in HC.
+    pose proof (emit_enc0 ONone _ _ eq_refl HC) as ->. cbn [csym ccode cconsts].
+    split; [reflexivity|]. exists [(ONone, 0)], []. split; [rewrite encode_one; reflexivity|].
+    split; [rewrite app_nil_r; reflexivity|]. split.
+    + intros nc gc k _ _. cbn [runs]. rewrite (sop_ok_noarg nc gc ONone 0 k eq_refl eq_refl eq_refl) by lia. f_equal. lia.
+    + intros lc _. constructor; [apply lopk_nonlocal; reflexivity|constructor].
+  - (* OSome *) intros e IHe HF st st' HC. cbn [efrag_o] in HF. cbn [compile_oexpr] in HC. exact (IHe HF st st' HC).
 Qed.
 
 Theorem efrag_sl2 : forall e, efrag e = true -> expr_sl2 e.
